@@ -185,6 +185,37 @@ def _metrics(spec, ctx, R):
         if np.any(x):
             ref = float(np.linalg.norm((y - x).ravel()) / np.linalg.norm(x.ravel()))
             ctx.check("relerr_value", abs(e - ref), 1e-12 * ref + 1e-300, site="differ")
+    # images stored in other dtypes (8/16/32-bit integers, float32): the metrics are defined on the VALUES; differences that are
+    # multiples of 16 make the squared difference wrap to 0 in uint8 arithmetic
+    for dt in (np.uint8, np.int16, np.uint16, np.int32, np.float32):
+        info = np.iinfo(dt) if np.issubdtype(dt, np.integer) else None
+        hi = min(info.max, 255) if info else 1.0
+        xi = (rng.integers(0, hi // 2 + 1, size=shape) if info else rng.random(shape)).astype(dt)
+        for step in ((16, 1, 48) if info else (0.25,)):
+            yi = xi.copy()
+            mask = rng.random(shape) < 0.5
+            if not mask.any():
+                mask.flat[0] = True
+            yi[mask] = (yi[mask] + dt(step)).astype(dt)
+            xv, yv = xi.astype(np.float64), yi.astype(np.float64)
+            if not np.any(xv != yv):
+                continue
+            site = f"dtype:{np.dtype(dt).name}"
+            try:
+                pv = Q.psnr(yi.copy(), xi.copy())
+                ev = Q.relative_error(yi.copy(), xi.copy())
+            except Exception as e:
+                ctx.check("psnr_zero_distance", False, site=site, detail={"exception": repr(e)})
+                continue
+            ctx.check("psnr_zero_distance", math.isfinite(pv), site=site, detail={"step": step, "psnr": pv})
+            mse_o = float(np.mean((yv - xv) ** 2))
+            dr_o = float(xv.max() - xv.min()) or 1.0
+            ctx.check("psnr_value", abs(pv - 10 * math.log10(dr_o * dr_o / mse_o)), 1e-6, site=site, detail={"step": step, "psnr": pv})
+            ctx.check("psnr_zero_distance", Q.psnr(xi.copy(), xi.copy()) == float("inf"), site=site + ":equal")
+            if np.any(xv):
+                ref = float(np.linalg.norm((yv - xv).ravel()) / np.linalg.norm(xv.ravel()))
+                ctx.check("relerr_value", abs(ev - ref), 1e-6 * ref + 1e-300, site=site, detail={"step": step, "relative_error": ev, "oracle": ref})
+            ctx.check("relerr_zero_distance", ev > 0.0, site=site, detail={"relative_error": ev})
     # PSNR value against the definition on a generic pair
     y = x + rng.standard_normal(shape) * 0.1
     mse = float(np.mean((y - x) ** 2))
